@@ -204,6 +204,7 @@ struct Stmt
   bool was_blocked{false};
   bool in_y1{false};
   bool evaluated{true};    // C16: arguments were evaluated (statement passed the logger level)
+  bool immediate{false};   // logged with log_statement<immediate_flush = true>: the call flushes before it returns
 };
 
 struct FlushRec
@@ -232,6 +233,7 @@ struct WInfo
   uint32_t counter{0};      // C16 bump counter (written on the worker)
   long drops_unreported{0};
   int bt_logger{-1};        // C18: the one logger this worker uses for backtrace traffic
+  std::vector<size_t> imm_must; // immediate-flush log call in flight: statements that must be written when it returns
 };
 
 struct BtEvent
